@@ -11,6 +11,7 @@ From Verif Require Import Base.Util Model.Metadata Model.ResultStore Model.Propo
 From Verif Require Import Proofs.MetadataProofs Proofs.ProposalQueueProofs Gen.Generated.
 From Verif Require Import Base.GenIR Gen.GeneratedTr Proofs.GenTrStores.
 From Verif Require Import Base.GenIR Gen.GeneratedTr Proofs.GenTrHooks.
+From Verif Require Import Base.GenIR Gen.GeneratedTr Proofs.GenTrMeta.
 Open Scope Z_scope.
 
 (* Viewing returns exactly the proposals that are pending (latest add for their type and work
@@ -190,6 +191,41 @@ Theorem C11_gen_prebuild_hooks_steps :
   g_hook_proposalq_body enq_err = (if enq_err then ([1], Cont) else ([1; 2], Fall)).
 Proof. exact gen_hook_prebuild. Qed.
 Print Assumptions C11_gen_prebuild_hooks_steps.
+
+End GenTie.
+
+Section GenTie.
+Local Open Scope Z_scope.
+(* ---- Tie to the source by translation (Gen/GeneratedTr.v, regenerated from /repo on every run by gen/translate.go) ----
+   g_* are the decision terms translated from the CURRENT Go code: every condition, the branch structure and which
+   white-listed effect statement runs on which path.  The theorems below state that the model's functions - about
+   which every theorem above speaks - are the interpretation of these terms. *)
+(* metadata store views, loop bodies (both trigger types take the same decisions): the model's vbody is the interpretation *)
+Theorem C11_gen_view_loop_decisions :
+  forall expiry now st k,
+  let '(m, out) := st in
+  vbody expiry now st k =
+  match g_ms_view_log_body (rec_expired expiry now (vget k (om_vals m))) with
+  | ([1], Fall) => (om_delete k m, out)
+  | _ => match vget k (om_vals m) with Some r => (m, out ++ [m_prop r]) | None => (m, out) end
+  end
+  /\ g_ms_view_cond_body = g_ms_view_log_body.
+Proof. exact gen_ms_view_body. Qed.
+Print Assumptions C11_gen_view_loop_decisions.
+
+(* expiringRecord.expired: age strictly greater than the expiry *)
+Theorem C11_gen_metadata_expired :
+  forall expiry now r,
+  g_ms_expired (now - m_at r) expiry = ([], RetB (rec_expired expiry now (Some r))).
+Proof. exact gen_ms_expired. Qed.
+Print Assumptions C11_gen_metadata_expired.
+
+(* orderedMap.Add: a new key is appended to the key slice, a known key only gets its value replaced *)
+Theorem C11_gen_ordered_map_Add :
+  forall known : bool,
+  g_ms_omap_add known = if known then ([1], Fall) else ([2; 1], Fall).
+Proof. exact gen_ms_omap_add. Qed.
+Print Assumptions C11_gen_ordered_map_Add.
 
 End GenTie.
 
